@@ -298,6 +298,10 @@ def rule_rw3(prog):
             return r            # the towers have established a violation
         e.partial = r
         raise
+    except AnalysisError:
+        if r.findings:
+            return r            # (same: an unexpected shape of LNot)
+        raise
     if r0 is not None:
         r0.partial = r
         raise r0
